@@ -3,8 +3,35 @@ DEFAULT_NOTE = ("Trusted: rustc nightly's HIR/MIR for the extracted configuratio
                 "rule implementations and the frozen tables under /verif/tables. The decided clauses are necessary "
                 "conditions of the property; passing them does not prove the behavioural property for all inputs.")
 LEVEL_NOTE = {}
+LEA = ("static analysis: path-sensitive effect/typestate analysis (LEA) over rustc's type-checked HIR - all paths of "
+       "Lexer::lex_token per lexer mode, crate-local calls inlined, loops peeled once and widened - ")
 TECHNIQUE = {
+    "C01": LEA + "progress, panic-reachability and checkpoint-typestate rules; structural pairing rule on counters",
+    "C02": "static analysis: structural HIR rules (rollback/restore agreement, EOF ownership, cfg-differential diff) + "
+           "LEA offset-provenance and emission-order rules",
+    "C03": "static analysis: structural HIR/MIR rules - cursor count pairing in debug and release MIR, byte/code-point "
+           "dimension (units) analysis",
+    "C04": LEA + "newline/add_line pairing, look-ahead evidence for counts, dispatcher/scanner commutation probe",
+    "C05": "static analysis: sibling-implementation agreement - symbolic evaluation of accessor and bulk-view HIR on "
+           "order-type witnesses; units analysis",
+    "C06": LEA + "per-emission channel/type, spelling, non-emptiness, delimiter and orphan-consumption rules",
+    "C07": LEA + "literal-section anchoring rules and commutation probe; structural hex-sink and rollback rules",
+    "C09": LEA + "checkpoint typestate incl. live-checkpoint region exploration, speculation purity, error/recovery "
+           "pairing and ordering",
+    "C10": LEA + "retype guards, expectation tables per keyword, finalize-once, token-group rules",
+    "C11": LEA + "pending-statement flag, datalines look-behind, delimiter shape, spelling rules on open-code paths",
+    "C12": LEA + "mode push-order rule (whitespace-blind modes vs exit guarantees), expectation tables, checkpoint "
+           "residue; structural counter pairing",
+    "C13": LEA + "nesting write-back, depth-zero guard and dispatcher/scanner commutation probe for %-quoting",
+    "C14": LEA + "expectation tables per keyword and error/recovery-token pairing incl. finalize_lexing",
+    "C15": "static analysis: state inventory, history-length and look-behind rules over HIR + LEA checkpoint typestate",
     "C16": "static analysis: case-closure lint over HIR patterns/comparisons + upper-case dataflow (def-use) rule",
+    "C17": "static analysis: structural BOM-ordering rule and units analysis over HIR",
+    "C18": "static analysis: cfg-differential (feature on/off) HIR diff + guard rule for every MacroSep emission",
+    "C19": "static analysis: state/effect inventory, cfg-differential diffs (debug, nightly), unsafe-guard rule, cursor "
+           "MIR pairing in both profiles + LEA panic reachability",
+    "C20": "static analysis: wire-schema agreement between the linked crate's ADT/Serialize facts (rustc) and the "
+           "Python classes (ast), enum discriminant agreement, source-provenance rule",
 }
 DESIGN_REF = {"C16": "DESIGN.md §3 C16"}
 NOT_APPLICABLE = {
